@@ -7,9 +7,7 @@ import Amgcl.Properties.C16
 cleared output vector) as a function `CRS K → Vec K → Vec K`, `skylineOk perm` says that its constructor succeeds, and
 `skyline_directExact` is `C16.skyline_spec` in the form consumed by `C02c.built_realizes`.
 
-This module is NOT imported by `Properties/C02c.lean`: the import closures of `Properties/C16.lean` (`Proofs/Array2.lean`)
-and of `Properties/C03.lean` (`Proofs/KernelsSaad.lean`) both declare `Amgcl.getD_setIfInBounds_ne`, so the two cannot
-be imported into one module; `DirectExact` is the interface between them.
+It is combined with `Properties/C02c.lean` in `Properties/C02d.lean` (`model_amg_skyline_spd_contracting`).
 -/
 set_option linter.unusedSectionVars false
 namespace Amgcl.Energy.Bridge
